@@ -92,6 +92,10 @@ def main():
         else:
             sh(f"git -C /repo worktree remove --force {wt}")
             shutil.rmtree(wt, ignore_errors=True)
+        if "C09" in checks:
+            # C09 regenerates lean/PyribsGen/RngSites.lean from the tree under test: put back /repo's own table
+            sh(f"/venv/bin/python -c \"import sys; sys.path.insert(0, '{VERIF}/harness'); "
+               f"from translate import rng_sites; rng_sites.translate('/repo', '{VERIF}/lean/PyribsGen/RngSites.lean')\"")
     return 0
 
 
